@@ -119,7 +119,10 @@ def c13(tier, args):
 # ---------------------------------------------------------------------------
 # engine B: explicit-state search over the real index
 def seqmc_crash(assertions):
-    def f(rc, se):
+    def f(rc, se, hist=""):
+        if " FAULT " in hist:
+            # the process died while an injected allocation failure was being handled: the exception did not reach the caller
+            return "C08"
         if rc == 45:
             return "C14"
         if rc == 43 or rc == -11 or rc == -7 or rc == -4:
@@ -128,6 +131,28 @@ def seqmc_crash(assertions):
             return "C16" if assertions else "C01"
         return None
     return f
+
+
+def merge_and_finish(prop, tier, t0, parts, labels):
+    """parts: list of (report, coverage, assumptions) from engine runs with finish=False"""
+    import time as _time
+    from vlib import write_evidence
+    rep, cov, ass = parts[0][0], dict(parts[0][1]), list(parts[0][2])
+    cov["parts_by_engine"] = {labels[0]: {k: parts[0][1].get(k) for k in ("states", "transitions", "evaluations", "exhaustive")}}
+    for (r, c, a), lab in zip(parts[1:], labels[1:]):
+        for k in ("states", "transitions", "traces_validated_against_impl", "evaluations", "distinct_nontrivial"):
+            cov[k] = cov.get(k, 0) + c.get(k, 0)
+        cov["samples"] = cov["samples"][:4] + c["samples"][:2]
+        cov["exhaustive"] = bool(cov["exhaustive"] and c["exhaustive"])
+        cov["rule"] = cov["rule"] + " || plus (" + lab + ") " + c["rule"]
+        cov["parts_by_engine"][lab] = {k: c.get(k) for k in ("states", "transitions", "evaluations", "exhaustive", "scenarios",
+                                                              "scenarios_completed", "executions_by_preemptions", "distinct_outcomes")}
+        rep.violations += r.violations
+        rep.infra_errors += r.infra_errors
+        rep.known.update(r.known)
+        ass += [x for x in a if x not in ass]
+    write_evidence(prop, tier, "model_checking", cov, _time.time() - t0, len(rep.violations), ass)
+    return rep.finish()
 
 
 SEQMC_ASSUMPTIONS = [
@@ -140,7 +165,8 @@ SEQMC_ASSUMPTIONS = [
 SEQMC_RULE = "closure under arbitrary finite operation sequences per universe (state graph fixpoint):"
 
 
-def _seqmc(prop, tier, variant, extra, us, deep_us=(), indexes=engine_b.INDEXES, assertions=False, label="", extra_runs=()):
+def _seqmc(prop, tier, variant, extra, us, deep_us=(), indexes=engine_b.INDEXES, assertions=False, label="", extra_runs=(),
+           finish=True):
     bins = engine_b.binaries(variant)
     runs = engine_b.runs_for(us, bins, extra, variant, indexes)
     for r in runs:
@@ -152,7 +178,7 @@ def _seqmc(prop, tier, variant, extra, us, deep_us=(), indexes=engine_b.INDEXES,
             r["signature_suffix"] = "@deep-shared-prefix"
         runs += druns
     runs += list(extra_runs)
-    return engine_simple.run_protocol_check(prop, tier, runs, SEQMC_RULE, SEQMC_ASSUMPTIONS, engine="seqmc",
+    return engine_simple.run_protocol_check(prop, tier, runs, SEQMC_RULE, SEQMC_ASSUMPTIONS, engine="seqmc", finish=finish,
                                             extra_cov=dict(universes=[u["id"] for u in us] + [u["id"] for u in deep_us],
                                                            index_classes=list(indexes), build_variant=variant))
 
@@ -172,10 +198,7 @@ def c02(tier, args):
     us = engine_b.all_universes(tier)
     if args.only:
         us = [u for u in us if args.only in u["id"]]
-    # the complete bound set on every state is expensive: the largest universes keep full scans only
-    big = {"g1-full-256", "g1-i48-i256", "g1-i16-i48", "g1-i16-i48-big"} if tier == "quick" else {"g1-full-256"}
-    small = [u for u in us if u["id"] not in big]
-    return _seqmc("C02", tier, "fast", ["--scans", "2", "--views", "0"], small)
+    return _seqmc("C02", tier, "fast", ["--scans", "2", "--views", "0"], us)
 
 
 @check("C08")
@@ -277,7 +300,9 @@ def c16(tier, args):
                     report.violation("C16", "C16/counters-mismatch", what,
                                      dict(engine="seqmc-matrix", run=run_id, configs=[st[0][0], lab], what=what), run_id + "-" + lab + "-st")
 
-    return engine_simple.run_protocol_check(
+    import time as _time
+    t0 = _time.time()
+    rep_b, cov_b, ass_b = engine_simple.run_protocol_check(
         "C16", tier, runs,
         "the same deterministic state-graph search (engine B, complete scan bound set, scans also run on the object that is then "
         "mutated) in all 16 build configurations {AVX2, SSE4.1} x {stats, no stats} x {assertions, NDEBUG} x {PAUSE, EMPTY}; "
@@ -285,9 +310,37 @@ def c16(tier, args):
         "the 8 with statistics, every assertion-enabled process must exit normally:",
         SEQMC_ASSUMPTIONS + ["reported memory use is compared only among configurations with the same assertion setting and the "
                              "same SIMD level (assertion builds have larger nodes, AVX2 builds align inode_48 differently)"],
-        engine="seqmc", post=post,
+        engine="seqmc", post=post, finish=False,
         extra_cov=lambda: dict(configurations=[matrix_label(c) for c in MATRIX], universes=[u["id"] for u in us],
                                transcript_groups_compared=len(us) * len(indexes), disagreements=len(disagreements)))
+    # assertions under concurrency: the engine-A OLC scenarios in an assertion-enabled build; a library assertion that fires
+    # on valid concurrent use aborts the runner, which is attributed to the schedule being executed
+    scs = scenarios.c03(tier)
+    if tier == "quick":
+        scs = [s for s in scs if s["base"] in ("two_level", "two_leaves", "i4_full", "i16_min", "i4_three", "three_level", "single_leaf")]
+        scs = [s for i, s in enumerate(scs) if i % 3 == 0]
+    scs += [s for i, s in enumerate(scenarios.c09(tier)) if i % (8 if tier == "quick" else 2) == 0]
+    if args.only:
+        scs = [s for s in scs if args.only in s["id"]]
+    cov = dict(cov_b)
+    rep = rep_b
+    if scs:
+        rep_a, cov_a, ass_a = engine_a.run_scenarios("C16", tier, scs, _deadline(args, 600, 3000, tier), finish=False,
+                                                     binary=engine_a.olc_debug_binary(), fatal_property="C16")
+        for k in ("states", "transitions", "traces_validated_against_impl", "evaluations", "distinct_nontrivial"):
+            cov[k] = cov_b.get(k, 0) + cov_a.get(k, 0)
+        cov["samples"] = cov_b["samples"][:4] + cov_a["samples"][:2]
+        cov["exhaustive"] = bool(cov_b["exhaustive"] and cov_a["exhaustive"])
+        cov["concurrent_assertion_build"] = {k: cov_a[k] for k in ("scenarios", "scenarios_completed", "executions_by_preemptions",
+                                                                    "distinct_outcomes", "evaluations") if k in cov_a}
+        cov["rule"] = cov_b["rule"] + " || plus " + cov_a["rule"] + " in an assertion-enabled build of the OLC runner (abort = violation)"
+        rep.violations += rep_a.violations
+        rep.infra_errors += rep_a.infra_errors
+        rep.known.update(rep_a.known)
+        ass_b = ass_b + ["concurrent part: as C03/C09 (sequentially consistent interleavings, bounds per scenario)"]
+    from vlib import write_evidence
+    write_evidence("C16", tier, "model_checking", cov, _time.time() - t0, len(rep.violations), ass_b)
+    return rep.finish()
 
 
 
@@ -296,7 +349,20 @@ def c10(tier, args):
     us = engine_b.all_universes(tier)
     if args.only:
         us = [u for u in us if args.only in u["id"]]
-    return _seqmc("C10", tier, "fast", ["--scans", "0", "--views", "0"], us)
+    import time as _time
+    t0 = _time.time()
+    part_b = _seqmc("C10", tier, "fast", ["--scans", "0", "--views", "0"], us, finish=False)
+    # the concurrent clause: after a concurrent phase, once every thread has quiesced, shape / counts / memory / held bytes /
+    # growth-and-shrink conservation must hold again.  Writer-writer scenarios around every grow / shrink / collapse edge.
+    scs = [s for s in scenarios.c03(tier) if all(t[0][0] in "ir" for t in s["threads"][:2]) and len(s["threads"]) == 2 and
+           len(s["threads"][0]) == 1]
+    if tier == "quick":
+        scs = [s for s in scs if s["base"] in ("two_level", "two_leaves", "i4_full", "i16_min", "i4_three", "three_level", "below_i16")]
+    scs = _filter(scs, args)
+    if not scs:
+        return merge_and_finish("C10", tier, t0, [part_b], ["seqmc"])
+    part_a = engine_a.run_scenarios("C10", tier, scs, _deadline(args, 600, 3000, tier), finish=False)
+    return merge_and_finish("C10", tier, t0, [part_b, part_a], ["seqmc", "sched: writer/writer scenarios on the real olc_db"])
 
 
 # ---------------------------------------------------------------------------
